@@ -168,6 +168,10 @@ type task struct {
 	resumeAt int
 	epoch    int
 	plan     map[string]int
+	// the node inside whose request handler the task is parked (lock gap
+	// syncreq.between), and that node's incarnation at that moment
+	handlerNode  *SimNode
+	handlerEpoch int
 }
 
 // Cluster is one simulated network.
@@ -383,7 +387,16 @@ func (c *Cluster) installHooks() {
 		if d := t.plan[site]; d > 0 {
 			t.plan[site] = 0
 			c.stats.probe("yield-parked:" + site)
+			t.handlerNode = nil
+			if site == "syncreq.between" {
+				for _, hn := range c.nodes {
+					if hn.node == nd {
+						t.handlerNode, t.handlerEpoch = hn, hn.epoch
+					}
+				}
+			}
 			c.park(t, d)
+			t.handlerNode = nil
 			c.curTask = t
 		}
 	}
